@@ -45,7 +45,24 @@ def mk_error(rng: random.Random):
             raise KeyError("with traceback")
         except KeyError as e:
             return e
-    return ExceptionGroup("multiple errors", [ValueError("a"), TypeError("b")])
+    if r < 0.9:
+        return ExceptionGroup("multiple errors", [ValueError("a"), TypeError("b")])
+    # chained: raised from another exception / while handling one (format_exception prints several traceback headers)
+    if rng.random() < 0.5:
+        try:
+            try:
+                raise KeyError("cause")
+            except KeyError as ex:
+                raise RuntimeError("translated") from ex
+        except RuntimeError as e:
+            return e
+    try:
+        try:
+            raise KeyError("context")
+        except KeyError:
+            raise RuntimeError("while handling")
+    except RuntimeError as e:
+        return e
 
 
 def rnd_stack(rng: random.Random, depth: int, width: int):
